@@ -276,7 +276,11 @@ impl<A: Send + 'static> Stream<A> {
                 move || {
                     self_.with_firing_op(|firing_op: &mut Option<A>| {
                         if let Some(ref firing) = firing_op {
-                            s.unwrap()._send(f.call(firing));
+                            // the output may have been dropped already, by a handler that ran earlier in
+                            // this transaction (the node was queued before)
+                            if let Some(s) = s.upgrade() {
+                                s._send(f.call(firing));
+                            }
                         }
                     })
                 },
@@ -306,7 +310,10 @@ impl<A: Send + 'static> Stream<A> {
                     self_.with_firing_op(|firing_op: &mut Option<A>| {
                         let firing_op2 = firing_op.clone().filter(|firing| pred.call(firing));
                         if let Some(firing) = firing_op2 {
-                            s.unwrap()._send(firing);
+                            // the output may have been dropped already (see map)
+                            if let Some(s) = s.upgrade() {
+                                s._send(firing);
+                            }
                         }
                     });
                 },
@@ -347,14 +354,19 @@ impl<A: Send + 'static> Stream<A> {
                     // read the two firings one after the other: the inputs may be the same stream
                     let firing1_op = self_.with_firing_op(|firing_op: &mut Option<A>| firing_op.clone());
                     let firing2_op = s2.with_firing_op(|firing_op: &mut Option<A>| firing_op.clone());
+                    // the output may have been dropped already (see map)
+                    let s = match s.upgrade() {
+                        Some(s) => s,
+                        None => return,
+                    };
                     if let Some(ref firing1) = firing1_op {
                         if let Some(ref firing2) = firing2_op {
-                            s.unwrap()._send(f.call(firing1, firing2));
+                            s._send(f.call(firing1, firing2));
                         } else {
-                            s.unwrap()._send(firing1.clone());
+                            s._send(firing1.clone());
                         }
                     } else if let Some(ref firing2) = firing2_op {
-                        s.unwrap()._send(firing2.clone());
+                        s._send(firing2.clone());
                     }
                 },
                 vec![self.box_clone(), s2_node],
@@ -453,7 +465,11 @@ impl<A: Send + 'static> Stream<A> {
                 move || {
                     self_.with_firing_op(|firing_op: &mut Option<A>| {
                         if let Some(ref firing) = firing_op {
-                            let s = s.unwrap();
+                            // the output may have been dropped already (see map)
+                            let s = match s.upgrade() {
+                                Some(s) => s,
+                                None => return,
+                            };
                             s._send(firing.clone());
                             let node = s.box_clone();
                             sodium_ctx.pre_post(move || {
